@@ -536,3 +536,81 @@ def reaching_def_nodes(cfg: CFG, var: str, at: Node) -> List[Tuple[object, Optio
                 seen.add(p.id)
                 dq.append(p)
     return out
+
+
+# ---------------------------------------------------------------------------
+# flag-sensitive path exploration
+# ---------------------------------------------------------------------------
+def _flag_assign(node: Node, flags) -> Optional[Tuple[str, Optional[bool]]]:
+    """`flag = True/False` -> (flag, value) ; any other binding of a flag -> (flag, None)."""
+    st = node.ast
+    if node.kind == "stmt" and isinstance(st, ast.Assign):
+        for t in st.targets:
+            if isinstance(t, ast.Name) and t.id in flags:
+                if isinstance(st.value, ast.Constant) and isinstance(st.value.value, bool):
+                    return (t.id, st.value.value)
+                return (t.id, None)
+    if node.kind == "for" and isinstance(st.target, ast.Name) and st.target.id in flags:
+        return (st.target.id, None)
+    return None
+
+
+def _flag_test(test: ast.AST, flags) -> Optional[Tuple[str, bool]]:
+    """`if flag` -> (flag, True) ; `if not flag` -> (flag, False): value of the flag on the T edge."""
+    if isinstance(test, ast.Name) and test.id in flags:
+        return (test.id, True)
+    if isinstance(test, ast.UnaryOp) and isinstance(test.op, ast.Not) and isinstance(test.operand, ast.Name) \
+            and test.operand.id in flags:
+        return (test.operand.id, False)
+    return None
+
+
+def flag_paths(cfg: CFG, start_edges: List[Tuple[Node, Node]], targets: Iterable[Node],
+               blocked: Callable[[Node], bool], flags: Iterable[str]) -> Optional[List[Node]]:
+    """Is there a FEASIBLE path from the given start edges to a target node that passes no `blocked`
+    node, where feasibility tracks the boolean locals `flags` (assigned True/False constants, tested by
+    `if flag` / `if not flag`)?  Returns a witness path or None.  Unknown flag values allow both edges."""
+    flags = set(flags)
+    tgt = {t.id for t in targets}
+    init = tuple(sorted((f, None) for f in flags))
+    dq = deque()
+    seen = set()
+    prev = {}
+    for a, b in start_edges:
+        k = (b.id, init)
+        if k not in seen:
+            seen.add(k)
+            prev[k] = None
+            dq.append(k)
+    while dq:
+        k = dq.popleft()
+        nid, fl = k
+        n = cfg.nodes[nid]
+        if nid in tgt:
+            path = []
+            cur = k
+            while cur is not None:
+                path.append(cfg.nodes[cur[0]])
+                cur = prev[cur]
+            return list(reversed(path))
+        if blocked(n):
+            continue
+        env = dict(fl)
+        fa = _flag_assign(n, flags)
+        if fa is not None:
+            env[fa[0]] = fa[1]
+        ft = _flag_test(n.ast, flags) if n.kind == "test" else None
+        for s, lab in n.succ:
+            env2 = dict(env)
+            if ft is not None and lab in ("T", "F"):
+                name, val_on_true = ft
+                want = val_on_true if lab == "T" else (not val_on_true)
+                if env.get(name) is not None and env[name] != want:
+                    continue                      # infeasible edge
+                env2[name] = want
+            k2 = (s.id, tuple(sorted(env2.items())))
+            if k2 not in seen:
+                seen.add(k2)
+                prev[k2] = k
+                dq.append(k2)
+    return None
